@@ -6,6 +6,8 @@ accessor / setter <-> field agreement with the Anchor field's integer type; rout
 table <-> unreachable Anchor stubs; sibling comparison (guard atoms with outcomes,
 primitive calls with argument terms, returned terms) of every ported function pair
 with explicit, reasoned exemptions.
+Also decided: the dynamic tick-array byte encoding (C13.R1-R3 instances re-decided here); every dispatch
+wrapper forwards its arguments under the handler's own names;
 Not decided: equality of the hand-written tick-offset division with the Anchor
 arithmetic for all inputs; bit-for-bit equality of outputs in general."""
 import re
